@@ -4,26 +4,22 @@ _REQ = [("header", "0..48"), ("uid_hdr", "48..52"), ("uid_body", "52..60"), ("co
 _RESP = [("header", "0..48"), ("uid_hdr", "48..52"), ("uid_body", "52..60"), ("auth_words", "60..68"), ("auth_body", "68..112"), ("trailer", "112..116")]
 PROP = dict(
     functions=[
-        "ntp_proto::packet::NtpPacket::deserialize<{ProbeCipher, ModelCipher}> (v4 path), NtpPacket::{nts_poll_message, serialize<ModelCipher>} (c25_*_real_serializer)",
-        "ntp_proto::packet::extension_fields::{ExtensionFieldData::{deserialize,serialize}, ExtensionField::encode_encrypted, RawEncryptedField::{from_message_bytes,decrypt}}",
+        "ntp_proto::packet::NtpPacket::deserialize<ProbeCipher> (v4 path)",
+        "ntp_proto::packet::extension_fields::{ExtensionFieldData::deserialize, RawEncryptedField::{from_message_bytes,decrypt}, ExtensionField::encode_encrypted (c25_auth_encoder)}",
     ],
-    bounds="NTPv4. Tamper images use an 8-byte unique id and an 8-byte cookie (116 bytes; with the 32/16-byte sizes of the real client the solver runs out of memory at 12 GB, measured; both bodies are opaque to the decoder). Request image = header (byte 0 = 0x23, the other 47 bytes arbitrary) + unique id field + cookie field + authenticator written by the real ExtensionField::encode_encrypted with the ideal-AEAD ModelCipher (arbitrary nonce and tag) + 4 arbitrary trailer bytes; response image = header (byte 0 = 0xE4) + unique id field + authenticator over one new cookie + trailer. c25_*_real_serializer: NtpPacket::serialize of nts_poll_message(16-byte cookie, 1) (32-byte unique id) / of the corresponding response packet produces exactly the image built by the same assembly functions (instantiated with 32/16). Tampering: XOR of an arbitrary non-zero mask (all 255: every single-bit and single-byte change) into the byte at an arbitrary position, one harness per region. Decomposition (the decoder depends on the cipher only through decrypt's return value): tamper harnesses decode with a recording, always-refusing cipher and decide outside the decoder whether the ideal AEAD would have accepted the recorded (associated data, nonce, ciphertext) triple; region A: never the logged triple and nothing authentic is reported; region C: exactly the logged triple; the accepting behaviour (lists == original content) is decided with the accepting ModelCipher by c25_untampered and c25_*_trailer_accept.",
-    outside="real AES-SIV (idealised, DESIGN 2.6); NTPv5 NTS packets; requests with placeholders; server-side cookie recovery through KeySet (with client keys the returned cookie is observed to be None; KeySet::get/decode_cookie are exercised by C23/C26); changes of more than one byte; region B (the authenticator's own four words) with the accepting cipher: shown is that the AEAD is asked either about the logged triple or about something it refuses, and that a refusal reports nothing authentic",
+    bounds="NTPv4 NTS request image = header (byte 0 = 0x23, other 47 bytes arbitrary) + 8-byte unique id field + 8-byte cookie field + authenticator (RFC 8915 5.6: words, 16-byte nonce, ciphertext = 16-byte tag; arbitrary nonce and tag) + 4 arbitrary trailer bytes (116 bytes); the ideal AEAD has 'really encrypted' exactly (everything before the field, nonce, ciphertext). c25_auth_encoder: this authenticator and log entry are exactly what the real ExtensionField::encode_encrypted + ModelCipher produce (request, and response with one encrypted 8-byte cookie). Tampering: XOR of an arbitrary non-zero mask (all 255: every single-bit and single-byte change) into the byte at an arbitrary position of a region; registered regions: unique-id body (52..60) and nonce+ciphertext (80..112). Decomposition: the decoder depends on the cipher only through decrypt's return value; the harness decodes with a recording, always-refusing cipher and shows that every decrypt call differs from the logged triple (so the ideal AEAD refuses) and that after a refusal nothing is authenticated/encrypted and no cookie is returned.",
+    outside="NOT VERIFIED IN TIME (prepared in c25.rs, ~7 min of CBMC each on the loaded machine): header, cookie body, field type/length words, authenticator words, trailer, all response regions, and NtpPacket::serialize(nts_poll_message) == assembled image. DOES NOT REACH: any path on which decryption succeeds (2.5M SSA steps, out of memory): 'bytes after the authenticator never change what is authenticated' is therefore only prepared in the recording form (the AEAD is asked about exactly the logged triple). 32-byte unique id / 16-byte cookie sizes of the real client (solver out of memory at 12 GB; bodies are opaque to the decoder). Real AES-SIV (idealised, DESIGN 2.6); NTPv5; server-side cookie recovery through KeySet.",
     assumptions=["ideal AEAD: decrypt succeeds iff key, associated data, nonce and ciphertext||tag are exactly what encrypt recorded"],
     stub_notes=[
         "common::ModelCipher / common::ProbeCipher implement the public Cipher trait (no #[kani::stub]); ghost log of the one encryption per key, ghost record of up to two decrypt calls",
-        "rand::thread_rng via the standard ghost tape (symbolic) in c25_req_real_serializer: unique id and transmit timestamp of the request are arbitrary",
-        "hooks: encode_encrypted_hook (thin wrapper), packet_from_parts, packet_authenticated/encrypted/untrusted getters, request_identifier_parts",
-        "core::str::from_utf8 / is_ascii ASCII-only models, Cargo.toml cbmc-args (see C23)",
+        "hooks: encode_encrypted_hook (thin wrapper), packet_authenticated/encrypted getters",
+        "core::str::from_utf8 / is_ascii ASCII-only models, AES-SIV/zeroize stubs, Cargo.toml cbmc-args (see C23)",
     ],
     harnesses=[
-        H(NP, "c25", "c25_untampered", "valid request/response accepted with exactly the expected authenticated/encrypted content (accepting cipher)", tier="thorough"),
-        H(NP, "c25", "c25_auth_encoder", "hand-assembled authenticator + ghost log == real ExtensionField::encode_encrypted with ModelCipher (request and response)", tier="thorough"),
-        H(NP, "c25", "c25_req_real_serializer", "NtpPacket::serialize(nts_poll_message) == assembled request image", tier="thorough"),
-        H(NP, "c25", "c25_resp_real_serializer", "NtpPacket::serialize(response) == assembled response image", tier="thorough"),
-        H(NP, "c25", "c25_req_trailer_accept", "request, trailer byte changed, accepting cipher: same authentic content", tier="thorough"),
-        H(NP, "c25", "c25_resp_trailer_accept", "response, trailer byte changed, accepting cipher: same authentic content", tier="thorough"),
-    ]
-    + [H(NP, "c25", "c25_req_" + n, "request, tampered byte in %s" % r, tier=("quick" if n in ("uid_body", "auth_body") else "thorough"), timeout=600) for n, r in _REQ]
-    + [H(NP, "c25", "c25_resp_" + n, "response, tampered byte in %s" % r, tier=("quick" if n in ("auth_body",) else "thorough"), timeout=600) for n, r in _RESP],
+        H(NP, "c25", "c25_auth_encoder", 'hand-assembled authenticator + ghost log == real ExtensionField::encode_encrypted with ModelCipher (request and response)', tier="thorough", timeout_thorough=3600),  # measured 342 s CBMC under load
+        H(NP, "c25", "c25_req_uid_body", 'request, tampered byte in 52..60', timeout=900),  # measured 425 s CBMC under load
+        H(NP, "c25", "c25_req_auth_body", 'request, tampered byte in 80..112', tier="thorough", timeout_thorough=3600),  # measured 398 s CBMC under load
+    ],
+    # prepared in the harness crate but NOT registered (did not finish / not re-verified in time / expected to fail):
+    # c25_untampered, c25_req_real_serializer, c25_resp_real_serializer, c25_req_trailer_accept, c25_resp_trailer_accept, c25_req_header, c25_req_uid_hdr, c25_req_cookie_hdr, c25_req_cookie_body, c25_req_auth_words, c25_req_trailer, c25_resp_header, c25_resp_uid_hdr, c25_resp_uid_body, c25_resp_auth_words, c25_resp_auth_body, c25_resp_trailer
 )
